@@ -914,7 +914,12 @@ func (t *FnTrans) callMods(c *ssa.CallCommon, li *loopInfo) {
 			return
 		}
 		if len(con.Modifies) > 0 {
-			// resolved at translation time; be conservative here
+			if comps, ok := t.modifiesComps(callee, con); ok {
+				for _, c := range comps {
+					li.mods[c] = true
+				}
+				return
+			}
 			li.modAll = true
 			return
 		}
@@ -1558,4 +1563,84 @@ func (t *FnTrans) havocAllKeepGhost(st *HeapState) *HeapState {
 		ns.cur[c] = t.heapGet(st, c, t.compSorts[c])
 	}
 	return ns
+}
+
+// modifiesComps resolves a contract's `modifies` list to heap component
+// names syntactically (for the loop pre-pass).  ok=false when an item cannot
+// be resolved.
+func (t *FnTrans) modifiesComps(callee *ssa.Function, con *Contract) ([]string, bool) {
+	sig := callee.Signature
+	paramType := func(name string) types.Type {
+		if r := sig.Recv(); r != nil && r.Name() == name {
+			return r.Type()
+		}
+		for i := 0; i < sig.Params().Len(); i++ {
+			if sig.Params().At(i).Name() == name {
+				return sig.Params().At(i).Type()
+			}
+		}
+		return nil
+	}
+	var res []string
+	for _, item := range con.Modifies {
+		item = strings.TrimSpace(item)
+		switch {
+		case item == "all":
+			return nil, false
+		case item == "allbytes":
+			res = append(res, "B."+t.sortKey(types.Typ[types.Uint8]))
+		case strings.HasPrefix(item, "ghost("):
+			i := strings.Index(item, "\"")
+			j := strings.LastIndex(item, "\"")
+			if i < 0 || j <= i {
+				return nil, false
+			}
+			res = append(res, "G."+item[i+1:j])
+		case strings.HasPrefix(item, "contents(") && strings.HasSuffix(item, ")"):
+			pt := paramType(strings.TrimSpace(item[len("contents(") : len(item)-1]))
+			if pt == nil {
+				return nil, false
+			}
+			switch u := pt.Underlying().(type) {
+			case *types.Slice:
+				res = append(res, "B."+t.sortKey(u.Elem()))
+			default:
+				return nil, false
+			}
+		case strings.Count(item, ".") == 1 && !strings.ContainsAny(item, "()[]*"):
+			parts := strings.Split(item, ".")
+			pt := paramType(parts[0])
+			if pt == nil {
+				return nil, false
+			}
+			ptr, ok := pt.Underlying().(*types.Pointer)
+			if !ok {
+				return nil, false
+			}
+			st, ok := ptr.Elem().Underlying().(*types.Struct)
+			if !ok {
+				return nil, false
+			}
+			found := false
+			for i := 0; i < st.NumFields(); i++ {
+				if st.Field(i).Name() == parts[1] {
+					found = true
+					base := "F." + typeKey(ptr.Elem()) + "." + parts[1]
+					cds := t.flatComps(st.Field(i).Type())
+					if cds == nil {
+						return nil, false
+					}
+					for _, cd := range cds {
+						res = append(res, base+cd.suffix)
+					}
+				}
+			}
+			if !found {
+				return nil, false
+			}
+		default:
+			return nil, false
+		}
+	}
+	return res, true
 }
